@@ -663,36 +663,41 @@ class SQLitePool(Pool):
         elif not pool.create_db and not os.path.exists(filename):
             throw(IOError, "Database file is not found: %r" % filename)
 
-        pool.con = con = sqlite.connect(filename, isolation_level=None, **pool.kwargs)
-        con.text_factory = _text_factory
+        con = sqlite.connect(filename, isolation_level=None, **pool.kwargs)
+        try:
+            con.text_factory = _text_factory
 
-        def create_function(name, num_params, func):
-            func = keep_exception(func)
-            con.create_function(name, num_params, func)
+            def create_function(name, num_params, func):
+                func = keep_exception(func)
+                con.create_function(name, num_params, func)
 
-        create_function('power', 2, pow)
-        create_function('rand', 0, random)
-        create_function('py_upper', 1, py_upper)
-        create_function('py_lower', 1, py_lower)
-        create_function('py_json_unwrap', 1, py_json_unwrap)
-        create_function('py_json_extract', -1, py_json_extract)
-        create_function('py_json_contains', 3, py_json_contains)
-        create_function('py_json_nonzero', 2, py_json_nonzero)
-        create_function('py_json_array_length', -1, py_json_array_length)
+            create_function('power', 2, pow)
+            create_function('rand', 0, random)
+            create_function('py_upper', 1, py_upper)
+            create_function('py_lower', 1, py_lower)
+            create_function('py_json_unwrap', 1, py_json_unwrap)
+            create_function('py_json_extract', -1, py_json_extract)
+            create_function('py_json_contains', 3, py_json_contains)
+            create_function('py_json_nonzero', 2, py_json_nonzero)
+            create_function('py_json_array_length', -1, py_json_array_length)
 
-        create_function('py_array_index', 2, py_array_index)
-        create_function('py_array_contains', 2, py_array_contains)
-        create_function('py_array_subset', 2, py_array_subset)
-        create_function('py_array_length', 1, py_array_length)
-        create_function('py_array_slice', 3, py_array_slice)
-        create_function('py_make_array', -1, py_make_array)
+            create_function('py_array_index', 2, py_array_index)
+            create_function('py_array_contains', 2, py_array_contains)
+            create_function('py_array_subset', 2, py_array_subset)
+            create_function('py_array_length', 1, py_array_length)
+            create_function('py_array_slice', 3, py_array_slice)
+            create_function('py_make_array', -1, py_make_array)
 
-        create_function('py_string_slice', 3, py_string_slice)
+            create_function('py_string_slice', 3, py_string_slice)
 
-        if sqlite.sqlite_version_info >= (3, 6, 19):
-            con.execute('PRAGMA foreign_keys = true')
+            if sqlite.sqlite_version_info >= (3, 6, 19):
+                con.execute('PRAGMA foreign_keys = true')
 
-        con.execute('PRAGMA case_sensitive_like = true')
+            con.execute('PRAGMA case_sensitive_like = true')
+        except:
+            con.close()
+            raise
+        pool.con = con
     def disconnect(pool):
         if pool.is_shared_memory_db or pool.filename == ':memory:':
             pass
